@@ -1,6 +1,6 @@
 (* C12 — validation: what is rejected on row insertion, what MetadataSchema() refuses. *)
 From Coq Require Import List ZArith Bool Lia.
-From TskVerif Require Import Base.Common C12.Model C12.BytesProofs C12.RoundTripProofs.
+From TskVerif Require Import Base.Common C12.Model C12.BytesProofs C12.Unfold.
 Import ListNotations.
 Open Scope Z_scope.
 
@@ -157,3 +157,24 @@ Proof.
                                       SArr (AFixed (-2)) (SLeaf TInteger (Some (BInt Ii)) false))])] |}.
     split; [reflexivity|]. do 2 eexists. repeat split; reflexivity.
 Qed.
+
+(* F9c, continued: object_encode's `except KeyError` also catches the KeyError raised *inside* the
+   encoder of a nested object, and then encodes the enclosing property's default instead — the
+   value the caller supplied ("b": 1) is silently replaced ("b": 6):
+   {"o": {"type":"object","properties":{"a":i,"b":i},"required":["b"],"default":{"a":5,"b":6}}}
+   with {"o":{"b":1}} *)
+Definition subst_schema : top :=
+  {| t_nullable := false; t_schema :=
+     SObj None [([111], {| p_index := 0; p_default := Some (VObj [([97], VInt 5); ([98], VInt 6)]) |},
+                 SObj (Some [[98]])
+                   [([97], {| p_index := 0; p_default := None |}, SLeaf TInteger (Some (BInt Ii)) false);
+                    ([98], {| p_index := 0; p_default := None |}, SLeaf TInteger (Some (BInt Ii)) false)])] |}.
+
+Theorem nested_keyerror_substitutes_default_refuted :
+  let v := VObj [([111], VObj [([98], VInt 1)])] in
+  construct subst_schema = CAccept /\
+  valid_top (modify_top subst_schema) v = true /\
+  validate_and_encode round32_impl (modify_top subst_schema) v = EOk [5; 0; 0; 0; 6; 0; 0; 0] /\
+  decode_top widen32_impl 0 (modify_top subst_schema) [5; 0; 0; 0; 6; 0; 0; 0] =
+    DOk (VObj [([111], VObj [([97], VInt 5); ([98], VInt 6)])]) [].
+Proof. vm_compute. auto. Qed.
